@@ -157,7 +157,15 @@ impl SizeManifest {
         }
 
         // Validate total_size matches sum of esizes
-        let computed_total: u64 = self.entries.iter().map(|e| e.esize).sum();
+        // Eight-byte esizes can add up to more than 64 bits: that cannot match any header
+        let computed_total = self
+            .entries
+            .iter()
+            .try_fold(0u64, |total, e| total.checked_add(e.esize))
+            .ok_or(SizeError::ValueTooLarge {
+                value: u64::MAX,
+                bytes: 8,
+            })?;
         if computed_total != self.header.total_size() {
             return Err(SizeError::TotalSizeMismatch {
                 expected: self.header.total_size(),
